@@ -131,7 +131,7 @@ def _h_hist(calls, events, clock):
     sock = TSock(clock, inc)
     sock.timeout = 5
     ws = new_ws(sock, get_mask_key=KeySource([bytes(4)] * 32))
-    ws.sock_opt.timeout = 5
+    ws.settimeout(5)
     released = False  # reference: the connection was closed by close()/shutdown() or observed lost
     why = None
     closes_expected = []  # (origin, payload) of the close frames the client is expected to have written, in order
